@@ -228,3 +228,162 @@ pub fn record(args: &[String]) {
     s.set("longest_program", json!(maxdepth_lines));
     s.finish();
 }
+
+// ---------------------------------------------------------------- C05: programs of Func.tla
+fn num(s: &str) -> i64 {
+    s.parse::<i64>().unwrap_or(0)
+}
+pub fn render_func(prog: &[Value], fnend: usize) -> String {
+    let mut text = String::from("c = set 1\narr = array 1 2\n");
+    for (k, ln) in prog.iter().enumerate() {
+        let cmd = ln["cmd"].as_str().unwrap();
+        let infn = k > 0 && k < fnend;
+        let t = match cmd {
+            "fn" => if ln["a"].as_bool().unwrap() { "fn <scope> f".to_string() } else { "fn f".to_string() },
+            "emit" => if infn { "emit \"${c}\" \"${i}\" \"${r}\" \"${1}\"".to_string() } else { "emit \"${c}\" \"${i}\" \"${r}\"".to_string() },
+            "dec" => "c = dec ${c}".to_string(),
+            "if" => match ln["a"].as_str().unwrap() { "C" => "if ${c}".to_string(), "call" => format!("if f {}", ln["arg"]), _ => "if false".to_string() },
+            "else" => "else".into(),
+            "end" => "end".into(),
+            "for" => "for i in ${arr}".into(),
+            "call" => if ln["out"].as_bool().unwrap() { format!("r = f {}", ln["arg"]) } else { format!("f {}", ln["arg"]) },
+            "ret" => if ln["a"].as_bool().unwrap() { "return 7".into() } else { "return".into() },
+            x => panic!("unknown line kind {}", x),
+        };
+        text.push_str(&t);
+        text.push('\n');
+    }
+    text
+}
+
+pub fn replay_func(args: &[String]) {
+    let rig = Rig::new();
+    let mut s = Summary::new();
+    let (mut n, mut run, mut skipped) = (0u64, 0u64, 0u64);
+    let mut samples = vec![];
+    tlc_lines(&args[0], "PROG", |rec| {
+        n += 1;
+        if rec["skip"].as_bool().unwrap() {
+            skipped += 1;
+            return;
+        }
+        let prog = rec["prog"].as_array().unwrap();
+        let text = render_func(prog, rec["fnend"].as_u64().unwrap() as usize);
+        rig.log.borrow_mut().clear();
+        run += 1;
+        if std::env::var("VH_TRACE").is_ok() { eprintln!("TRY {}", text.replace('\n', " / ")); }
+        let (res, halted) = run_timed(&text, rig.base.clone(), 5000);
+        let exp: Vec<Vec<i64>> = rec["trace"].as_array().unwrap().iter().map(|e| e.as_array().unwrap().iter().enumerate().map(|(k, x)| x.as_i64().unwrap() + if k == 0 { 2 } else { 0 }).collect()).collect();
+        let verdict = if halted { "hang".to_string() } else { match res {
+            Err(p) => format!("panic {}", p),
+            Ok(Err(e)) => format!("error {}", e.to_string().chars().take(80).collect::<String>()),
+            Ok(Ok(c)) => {
+                let got: Vec<Vec<i64>> = rig.log.borrow().iter().map(|e| { let a = strs(&e["args"]); let mut v = vec![e["line"].as_i64().unwrap()]; for k in 0..4 { v.push(a.get(k).map(|x| num(x)).unwrap_or(0)); } v }).collect();
+                let g = |k: &str| c.variables.get(k).map(|x| num(x)).unwrap_or(0);
+                if got != exp { format!("trace {:?} expected {:?}", got, exp) }
+                else if g("c") != rec["c"].as_i64().unwrap() || g("i") != rec["i"].as_i64().unwrap() || g("r") != rec["r"].as_i64().unwrap() {
+                    format!("final c={} i={} r={} expected c={} i={} r={}", g("c"), g("i"), g("r"), rec["c"], rec["i"], rec["r"]) }
+                else { "ok".into() }
+            }
+        } };
+        if verdict != "ok" {
+            let kinds: Vec<String> = prog.iter().map(|l| l["cmd"].as_str().unwrap().to_string()).collect();
+            let for_ret = kinds.contains(&"for".to_string()) && kinds.contains(&"ret".to_string());
+            s.mismatch(json!({"script": text, "why": verdict, "for_and_return": for_ret, "scoped": prog[0]["a"]}));
+        }
+        if samples.len() < 3 && run % 9001 == 0 {
+            samples.push(json!({"script": text, "expected_emit_trace": exp}));
+        }
+    });
+    s.set("programs", json!(n));
+    s.set("executed", json!(run));
+    s.set("skipped_fuel_or_open_corner", json!(skipped));
+    s.set("samples", json!(samples));
+    s.finish();
+}
+
+fn fline(cmd: &str, a: Value, out: bool, arg: i64) -> Value {
+    json!({"cmd": cmd, "a": a, "out": out, "arg": arg})
+}
+fn gen_func_block(r: &mut Rng, depth: usize, budget: &mut i64, out: &mut Vec<Value>, infn: bool) {
+    let n = 1 + r.below(4);
+    for _ in 0..n {
+        if *budget <= 0 {
+            break;
+        }
+        *budget -= 1;
+        match if depth == 0 { r.below(5) } else { r.below(9) } {
+            0 | 1 => out.push(fline("emit", json!("T"), false, 0)),
+            2 => out.push(fline("dec", json!("T"), false, 0)),
+            3 => if infn { out.push(fline("ret", json!(r.chance(1, 2)), false, 0)) } else { out.push(fline("call", json!("T"), r.chance(1, 2), 5)) },
+            4 => if infn {
+                // guarded recursion: only while the counter is positive, and it is decremented first
+                out.push(fline("if", json!("C"), false, 5));
+                out.push(fline("dec", json!("T"), false, 0));
+                out.push(fline("call", json!("T"), false, 6));
+                out.push(fline("end", json!("T"), false, 0));
+            } else { out.push(fline("call", json!("T"), r.chance(1, 2), 5)) },
+            5 | 6 => {
+                let cond = if !infn && r.chance(1, 3) { "call" } else { *r.pick(&["C", "F", "C"]) };
+                out.push(fline("if", json!(cond), false, 5));
+                gen_func_block(r, depth - 1, budget, out, infn);
+                if r.chance(1, 2) {
+                    out.push(fline("else", json!("T"), false, 0));
+                    gen_func_block(r, depth - 1, budget, out, infn);
+                }
+                out.push(fline("end", json!("T"), false, 0));
+            }
+            _ => {
+                out.push(fline("for", json!("T"), false, 0));
+                gen_func_block(r, depth - 1, budget, out, infn);
+                out.push(fline("end", json!("T"), false, 0));
+            }
+        }
+    }
+}
+
+pub fn record_func(args: &[String]) {
+    let seed: u64 = args[0].parse().unwrap();
+    let nprog: usize = args[1].parse().unwrap();
+    let mut out = Out::create(&args[2]);
+    let mut r = Rng::new(seed);
+    let rig = Rig::new();
+    let mut s = Summary::new();
+    let (mut lines, mut emits, mut longest) = (0u64, 0u64, 0usize);
+    let mut done = 0;
+    while done < nprog {
+        let scoped = r.chance(1, 3);
+        let mut prog = vec![fline("fn", json!(scoped), false, 0)];
+        let mut budget = 3 + r.below(10) as i64;
+        let d = 1 + r.below(4);
+        gen_func_block(&mut r, d, &mut budget, &mut prog, true);
+        prog.push(fline("end", json!("T"), false, 0));
+        let fnend = prog.len() - 1;
+        let mut budget = 4 + r.below(16) as i64;
+        while budget > 0 {
+            let d = r.below(4);
+            gen_func_block(&mut r, d, &mut budget, &mut prog, false);
+        }
+        let text = render_func(&prog, fnend);
+        rig.log.borrow_mut().clear();
+        let (res, halted) = run_timed(&text, rig.base.clone(), 3000);
+        let got: Vec<Value> = rig.log.borrow().iter().map(|e| { let a = strs(&e["args"]); let mut v = vec![e["line"].as_i64().unwrap() - 2]; for k in 0..4 { v.push(a.get(k).map(|x| num(x)).unwrap_or(0)); } json!(v) }).collect();
+        if got.len() > 500 { continue; }
+        let g = |c: &Context, k: &str| c.variables.get(k).map(|x| num(x)).unwrap_or(0);
+        let (ok, why, fc, fi, fr) = if halted { (false, "hang".to_string(), 0, 0, 0) } else { match res {
+            Err(p) => (false, format!("panic {}", p), 0, 0, 0),
+            Ok(Err(e)) => (false, format!("error {}", e), 0, 0, 0),
+            Ok(Ok(cx)) => (true, String::new(), g(&cx, "c"), g(&cx, "i"), g(&cx, "r")),
+        } };
+        lines += prog.len() as u64;
+        emits += got.len() as u64;
+        longest = longest.max(prog.len());
+        out.rec(&json!({"prog": prog, "ok": ok, "why": why, "trace": got, "c": fc, "i": fi, "r": fr}));
+        done += 1;
+    }
+    s.set("programs", json!(nprog));
+    s.set("lines", json!(lines));
+    s.set("emits", json!(emits));
+    s.set("longest_program", json!(longest));
+    s.finish();
+}
